@@ -1,6 +1,8 @@
 """Shared functionality for ballot/election file I/O. Internal."""
 
 import typing
+from decimal import Decimal
+from fractions import Fraction
 from typing import Any, Tuple, Callable, Iterable, TextIO, TypeVar
 
 FilePayload = TypeVar('FilePayload')
@@ -18,6 +20,19 @@ class NotSupportedInFormat(Exception):
 class ParseError(Exception):
     """An input that is invalid according to the given format was detected."""
     pass
+
+
+def add_weights(total: Any, weight: Any) -> Any:
+    """Add a ballot weight to a running total exactly.
+
+    Decimal addition rounds to the context precision and is not defined
+    against a Fraction; a Fraction holds both exactly.
+    """
+    if not total:
+        return weight
+    if isinstance(total, Decimal) or isinstance(weight, Decimal):
+        total, weight = Fraction(total), Fraction(weight)
+    return total + weight
 
 
 def loaders(line_loader: Callable[..., FilePayload]
